@@ -429,6 +429,7 @@ func (x *Executor) execLoop(fr *Frame, li *loopInfo, ins []incoming) map[*ssa.Ba
 		if ws.all {
 			x.protectComp(stE, stH, c, x.heapGet(stE, c), n)
 		}
+		x.unreachableFresh(stH, c, n)
 		stH.heap[c] = n
 		if c == allocComp {
 			old := x.heapGet(stE, allocComp)
@@ -972,6 +973,10 @@ func (x *Executor) atStoreObligations(st *State, a *Addr, oldT string, nv Val, r
 		return
 	}
 	u := x.u
+	if u.atMatched == nil {
+		u.atMatched = map[string]bool{}
+	}
+	u.atMatched["store:"+key] = true
 	fty := fieldType(u, a.Struct, a.Field)
 	vars := map[string]Val{"old": {T: oldT, Ty: fty}, "new": {T: nv.T, Ty: fty}}
 	for k, v := range x.topVars {
